@@ -18,6 +18,17 @@ operation outside every `try`, so that its exception reaches the caller? --
   transaction._resolve_table_schema           self.metadata_manager.refresh()     -> resolve_refresh_propagates
   transaction.append_data                     self._register_inflight(file_path)  -> marker_failure_propagates
   transaction.append_data                     self.append_files([...])            -> queue_failure_propagates
+  transaction.append_files                    validate_file_exists(...) in the loop -> files_exists_failure_propagates
+and for the GC-protection step of a pre-built-file call (append_files -> _protect_adopted_files, which stands before
+the queueing; all false when the source has no such step) -- does the failure reach the caller: is the failing
+operation outside every `try`, or only inside `try` blocks all of whose handlers end in a bare `raise`? --
+  _protect_adopted_files                      self._register_inflight(...)        -> adopt_marker_failure_propagates
+  _protect_adopted_files + garbage_collector.collection_in_progress   the listing of announced runs
+                                                                                  -> adopt_listing_failure_propagates
+  _protect_adopted_files + collection_in_progress   `if running is not None: raise`; an announcement that is in force
+                                              or cannot be read counts as a run  -> adopt_refused_while_collecting
+  _protect_adopted_files                      validate_file_exists(...) re-check  -> adopt_recheck_failure_propagates
+  _protect_adopted_files                      the handler deletes every marker the call wrote -> adopt_cleanup_on_failure
 
 The hand-written model (Model/Schema.v) builds `signature` / `accept_schema` from sig_ordered and
 sig_comps, so replacing the ordered list by a set, or dropping the field id from the tuple, changes
@@ -339,14 +350,49 @@ def check_more_pins(src: str) -> None:
         raise Unsupported("only append_data, for the file it has just written, may skip the verification of supplied bounds")
 
 
-def _propagates(fn: ast.FunctionDef, text: str) -> bool:
-    """Is the unique statement containing `text` outside every `try` of fn (its exception reaches the caller)?"""
+def _reraises(h: ast.ExceptHandler) -> bool:
+    """The handler always ends by re-raising what it caught: its last statement is a bare `raise`, and nothing in it
+    can leave it another way (no return; break / continue only inside its own loops)."""
+    if not h.body or not (isinstance(h.body[-1], ast.Raise) and h.body[-1].exc is None):
+        return False
+
+    def leaves(stmts: List[ast.stmt], in_loop: bool) -> bool:
+        for st in stmts:
+            if isinstance(st, ast.Return):
+                return True
+            if isinstance(st, (ast.Break, ast.Continue)) and not in_loop:
+                return True
+            if isinstance(st, (ast.FunctionDef, ast.ClassDef)):
+                continue
+            for name in ("body", "orelse", "finalbody"):
+                sub = getattr(st, name, None)
+                if isinstance(sub, list) and leaves(sub, in_loop or isinstance(st, (ast.For, ast.While))):
+                    return True
+            for hh in getattr(st, "handlers", []):
+                if leaves(hh.body, in_loop):
+                    return True
+        return False
+
+    return not leaves(h.body, False)
+
+
+def _propagates(fn: ast.FunctionDef, text: str, reraise_ok: bool = False) -> bool:
+    """Is the unique statement containing `text` outside every `try` of fn (its exception reaches the caller)?
+    With reraise_ok, a `try` all of whose handlers end in a bare `raise` (and that has no `finally` that returns)
+    does not count: the exception still reaches the caller."""
     hits: List[bool] = []
+
+    def transparent(st: ast.Try) -> bool:
+        if not reraise_ok:
+            return False
+        if any(isinstance(n, ast.Return) for f in st.finalbody for n in ast.walk(f)):
+            return False
+        return all(_reraises(h) for h in st.handlers)
 
     def walk(stmts: List[ast.stmt], guarded: bool) -> None:
         for st in stmts:
             if isinstance(st, ast.Try):
-                walk(st.body, True)
+                walk(st.body, guarded or not transparent(st))
                 for h in st.handlers:
                     walk(h.body, guarded)
                 walk(st.orelse, guarded)
@@ -370,6 +416,72 @@ def _propagates(fn: ast.FunctionDef, text: str) -> bool:
     return hits[0]
 
 
+# garbage_collector.collection_in_progress: an announcement counts while it is in force; one that cannot be read counts
+# as a run in progress; one withdrawn between the listing and the read does not.  The listing itself is unguarded.
+COLLECTION_IN_PROGRESS = [
+    "now_ms = time.time() * 1000",
+    "for path in storage.list_files(COLLECTING_PATH): "
+    "try: payload = json.loads(storage.read_file(path).decode('utf-8')) "
+    "expires_ms = float(payload['started_ms']) + float(payload['grace_period_ms']) "
+    "except FileNotFoundError: continue "
+    "except Exception: return str(path) "
+    "if now_ms < expires_ms: return str(path)",
+    "return None",
+]
+# the handler of _protect_adopted_files: every marker this call wrote is deleted (a marker that cannot be deleted stays
+# registered with the transaction), then the exception goes on to the caller
+ADOPT_CLEANUP = ("for marker_path in new_markers: try: storage.delete_file(marker_path) except Exception: continue "
+                 "if marker_path in self._inflight_markers: self._inflight_markers.remove(marker_path)")
+
+
+def adoption_flags(src: str) -> Dict[str, bool]:
+    """The GC-protection step of append_files for pre-built files, as far as the outcome of the CALL depends on it."""
+    names = ["adopt_marker_failure_propagates", "adopt_listing_failure_propagates", "adopt_refused_while_collecting",
+             "adopt_recheck_failure_propagates", "adopt_cleanup_on_failure"]
+    none = {k: False for k in names}
+    mod = parse_module(src, "transaction.py")
+    files = find_function(mod, "append_files", cls="Transaction")
+    try:
+        prot = find_function(mod, "_protect_adopted_files", cls="Transaction")
+    except Unsupported:
+        return none
+    stmts = _stmts(files)
+    call = "self._protect_adopted_files(files)"
+    queue = "self._operations.append({'type': 'append_files', 'files': files})"
+    if stmts.count(call) != 1 or stmts.count(queue) != 1:
+        return none                                   # not a top-level step of append_files (or no plain queueing)
+    # the step runs for every call, after the last look at the files and before anything is queued, and its
+    # exception is the call's exception
+    reaches = stmts.index(call) + 1 == stmts.index(queue) and _propagates(files, call)
+    if not reaches:
+        return none
+
+    def p(text: str) -> bool:
+        try:
+            return _propagates(prot, text, reraise_ok=True)
+        except Unsupported:
+            return False
+
+    try:
+        gc = _stmts(find_function(parse_module(src, "garbage_collector.py"), "collection_in_progress"))
+    except (Unsupported, OSError):
+        gc = []
+    body = _u(prot)
+    handlers = [h for n in ast.walk(prot) if isinstance(n, ast.Try) for h in n.handlers
+                if any(isinstance(x, ast.Raise) and x.exc is None for x in h.body)]
+    cleanup = len(handlers) == 1 and _reraises(handlers[0]) and \
+        " ".join(_u(st) for st in handlers[0].body[:-1]) == ADOPT_CLEANUP and \
+        "self._register_inflight(data_file.file_path) new_markers.append(marker_path)" in body
+    return {
+        "adopt_marker_failure_propagates": p("self._register_inflight(data_file.file_path)"),
+        "adopt_listing_failure_propagates": p("running = collection_in_progress(storage)") and gc == COLLECTION_IN_PROGRESS,
+        "adopt_refused_while_collecting": p("running = collection_in_progress(storage)") and gc == COLLECTION_IN_PROGRESS
+        and "running = collection_in_progress(storage) if running is not None: raise" in _u(_StripRaise().visit(ast.parse(ast.unparse(prot)))),
+        "adopt_recheck_failure_propagates": p("self.file_manager.validate_file_exists(data_file.file_path)"),
+        "adopt_cleanup_on_failure": cleanup,
+    }
+
+
 def fault_flags(src: str) -> Dict[str, bool]:
     mod = parse_module(src, "transaction.py")
     res = find_function(mod, "_resolve_table_schema", cls="Transaction")
@@ -384,7 +496,9 @@ def fault_flags(src: str) -> Dict[str, bool]:
         raise Unsupported("append_data: the in-flight marker is no longer written right before the data file")
     return {"resolve_refresh_propagates": _propagates(res, "self.metadata_manager.refresh()"),
             "marker_failure_propagates": _propagates(app, "self._register_inflight(file_path)"),
-            "queue_failure_propagates": _propagates(app, "self.append_files(")}
+            "queue_failure_propagates": _propagates(app, "self.append_files("),
+            "files_exists_failure_propagates": _propagates(files, "self.file_manager.validate_file_exists(data_file.file_path)"),
+            **adoption_flags(src)}
 
 
 @generator("GenSchema.v")
@@ -434,7 +548,10 @@ def gen_schema(src: str) -> str:
         "Definition sig_comps : list sigcomp := [" + "; ".join(comps) + "].",
         "",
         "(* storage failures during append_data / append_files: true = the failing operation is outside every `try`,",
-        "   its exception reaches the caller *)",
+        "   its exception reaches the caller; adopt_*: the GC-protection step of append_files for pre-built files",
+        "   (_protect_adopted_files, right before the queueing) -- a `try` whose handlers all end in a bare `raise` does not",
+        "   stop an exception; adopt_cleanup_on_failure: that handler deletes every marker the call wrote; all false when",
+        "   the source has no such step *)",
     ] + [f"Definition {k} : bool := {'true' if v else 'false'}." for k, v in flags.items()] + [
         "",
     ]
